@@ -1190,87 +1190,92 @@ func ruleDetachReadsOld(c *Ctx) {
 	})
 }
 
-// ruleReverseCopy (R-REVERSE-COPY): Stack.Slice hands back the elements newest first: where it copies list[E] into
-// out[I], I counts up from 0 by one under I < len(list) and the two positions mirror each other, I + E = len(list) − 1,
-// at the moment of the access — as an invariant of two cursors (initial values sum to len − 1, steps cancel, both
-// used before they are advanced) or because E is written len(list) − 1 − I.
+// ruleReverseCopy (R-REVERSE-COPY): Stack.Slice hands back the elements newest first: where it copies list[B] into
+// out[A], both positions are linear in the round number t of the copying loop (a·len + k + s·t: loop variables with a
+// constant step, range indices, len − 1 − i, a cursor read before or after it is advanced), the two mirror each other
+// (A + B = len − 1 in every round), and t runs over 0 … len − 1 exactly (the ascending position is t itself and the
+// loop test is equivalent to t < len).
 func ruleReverseCopy(c *Ctx) {
-	c.rule("R-REVERSE-COPY", 0, "in Stack.Slice the copy out[I] = list[E] has I from 0 up by one under I < len(list), and I + E = len(list) − 1 at the access")
+	c.rule("R-REVERSE-COPY", 0, "in Stack.Slice the copy out[A] = list[B] has A + B = len(list) − 1 in every round and the rounds cover 0 … len − 1")
 	fn := c.P.Func("stack", "Stack", "Slice")
 	lf := firstSliceField(c.P, "stack", "Stack")
 	if fn == nil || lf == nil {
 		return
 	}
-	isLenList := func(v ssa.Value) bool {
+	type lin struct {
+		a, k, s int64
+		ok      bool
+	}
+	var isLenList func(v ssa.Value, d int) bool
+	isLenList = func(v ssa.Value, d int) bool {
 		ln, ok := isBuiltinCall(v, "len")
-		if !ok {
+		if !ok || d > 3 {
 			return false
 		}
-		_, f := loadedField(ln.Call.Args[0])
-		return f != nil && sameField(f, lf)
-	}
-	// value = a·len + k, or unknown
-	var lenForm func(v ssa.Value, d int) (int64, int64, bool)
-	lenForm = func(v ssa.Value, d int) (int64, int64, bool) {
-		if d > 5 {
-			return 0, 0, false
+		x := ln.Call.Args[0]
+		if _, f := loadedField(x); f != nil && sameField(f, lf) {
+			return true
 		}
-		if isLenList(v) {
-			return 1, 0, true
+		// the copy itself: make([]T, len(list))
+		if mk, ok := x.(*ssa.MakeSlice); ok {
+			return isLenList(mk.Len, d+1)
+		}
+		return false
+	}
+	var form func(v ssa.Value, d int) lin
+	form = func(v ssa.Value, d int) lin {
+		if d > 6 {
+			return lin{}
+		}
+		if isLenList(v, 0) {
+			return lin{1, 0, 0, true}
 		}
 		if k, ok := constInt(v); ok {
-			return 0, k, true
+			return lin{0, k, 0, true}
 		}
-		if bo, ok := v.(*ssa.BinOp); ok && (bo.Op == token.ADD || bo.Op == token.SUB) {
-			a1, k1, ok1 := lenForm(bo.X, d+1)
-			a2, k2, ok2 := lenForm(bo.Y, d+1)
-			if ok1 && ok2 {
-				if bo.Op == token.ADD {
-					return a1 + a2, k1 + k2, true
-				}
-				return a1 - a2, k1 - k2, true
+		switch x := v.(type) {
+		case *ssa.BinOp:
+			if x.Op != token.ADD && x.Op != token.SUB {
+				return lin{}
 			}
-		}
-		return 0, 0, false
-	}
-	// an induction variable: φ(init, φ ± step)
-	type iv struct {
-		a, k, step int64
-		ok         bool
-	}
-	ivOf := func(v ssa.Value) iv {
-		ph, ok := v.(*ssa.Phi)
-		if !ok {
-			return iv{}
-		}
-		var r iv
-		seenInit, seenStep := false, false
-		for i, e := range ph.Edges {
-			if ph.Block().Dominates(ph.Block().Preds[i]) {
-				bo, ok := e.(*ssa.BinOp)
-				if !ok || bo.X != ssa.Value(ph) {
-					return iv{}
-				}
-				k, ok := constInt(bo.Y)
-				if !ok {
-					return iv{}
-				}
-				if bo.Op == token.SUB {
-					k = -k
-				} else if bo.Op != token.ADD {
-					return iv{}
-				}
-				r.step, seenStep = k, true
-			} else {
-				a, k, ok := lenForm(e, 0)
-				if !ok {
-					return iv{}
-				}
-				r.a, r.k, seenInit = a, k, true
+			l, r := form(x.X, d+1), form(x.Y, d+1)
+			if !l.ok || !r.ok {
+				return lin{}
 			}
+			if x.Op == token.ADD {
+				return lin{l.a + r.a, l.k + r.k, l.s + r.s, true}
+			}
+			return lin{l.a - r.a, l.k - r.k, l.s - r.s, true}
+		case *ssa.Phi:
+			// φ(init, φ ± step): init + step·t
+			var r lin
+			seenInit, seenStep := false, false
+			for i, e := range x.Edges {
+				if x.Block().Dominates(x.Block().Preds[i]) {
+					bo, ok := e.(*ssa.BinOp)
+					if !ok || bo.X != ssa.Value(x) || seenStep {
+						return lin{}
+					}
+					k, ok := constInt(bo.Y)
+					if !ok || (bo.Op != token.ADD && bo.Op != token.SUB) {
+						return lin{}
+					}
+					if bo.Op == token.SUB {
+						k = -k
+					}
+					r.s, seenStep = k, true
+				} else {
+					in := form(e, d+1)
+					if !in.ok || in.s != 0 || seenInit {
+						return lin{}
+					}
+					r.a, r.k, seenInit = in.a, in.k, true
+				}
+			}
+			r.ok = seenInit && seenStep
+			return r
 		}
-		r.ok = seenInit && seenStep
-		return r
+		return lin{}
 	}
 	n := 0
 	allInstrs(fn, func(in ssa.Instruction) {
@@ -1296,44 +1301,55 @@ func ruleReverseCopy(c *Ctx) {
 		n++
 		c.sawFn(fnName(fn))
 		key := fmt.Sprintf("%s:copy #%d", fnName(fn), n)
-		I := ivOf(dst.Index)
+		A, B := form(dst.Index, 0), form(src.Index, 0)
+		if !A.ok || !B.ok {
+			c.undecided("R-REVERSE-COPY", key, st.Pos(), "a position of the copy is not linear in the round number (a·len + k + s·t)")
+			return
+		}
 		var probs []string
-		if !I.ok {
-			c.undecided("R-REVERSE-COPY", key, st.Pos(), "the destination index is not a loop variable with a constant step")
-			return
+		if A.s+B.s != 0 {
+			probs = append(probs, fmt.Sprintf("the positions move by %+d and %+d per round: they do not stay mirror images of each other", A.s, B.s))
 		}
-		if I.a != 0 || I.k != 0 || I.step != 1 {
-			probs = append(probs, fmt.Sprintf("the destination index starts at %d·len%+d and moves by %+d (want: from 0 up by one)", I.a, I.k, I.step))
+		if A.a+B.a != 1 || A.k+B.k != -1 {
+			probs = append(probs, fmt.Sprintf("in the first round the positions sum to %d·len%+d, not len − 1", A.a+B.a, A.k+B.k))
 		}
-		boundOK := false
+		up := A
+		if B.s > 0 {
+			up = B
+		}
+		if up.s != 1 || up.a != 0 || up.k != 0 {
+			probs = append(probs, fmt.Sprintf("the ascending position is %d·len%+d%+d·t (want: t itself, from 0 up by one)", up.a, up.k, up.s))
+		}
+		// the loop test, as a bound on t
+		bounded := false
 		for _, cm := range cmpsAt(st.Block()) {
-			if cm.X == dst.Index && cm.Op == token.LSS && isLenList(cm.Y) {
-				boundOK = true
+			X, Y, op := form(cm.X, 0), form(cm.Y, 0), cm.Op
+			if !X.ok || !Y.ok {
+				continue
+			}
+			if X.s == 0 && Y.s != 0 {
+				X, Y, op = Y, X, flipOp(op)
+			}
+			if X.s == 0 || Y.s != 0 {
+				continue
+			}
+			// X.a·len + X.k + X.s·t  op  Y
+			da, dk := Y.a-X.a, Y.k-X.k
+			if X.s == -1 {
+				da, dk, op = -da, -dk, flipOp(op)
+			} else if X.s != 1 {
+				continue
+			}
+			// t op da·len + dk
+			switch {
+			case (op == token.LSS || op == token.NEQ) && da == 1 && dk == 0, op == token.LEQ && da == 1 && dk == -1:
+				bounded = true
 			}
 		}
-		if !boundOK {
-			probs = append(probs, "the destination index is not held below len(list) by the loop test")
+		if !bounded {
+			probs = append(probs, "the loop test does not hold the round number below len(list)")
 		}
-		// the source position
-		if E := ivOf(src.Index); E.ok {
-			if I.ok && (I.a+E.a != 1 || I.k+E.k != -1) {
-				probs = append(probs, fmt.Sprintf("the two cursors start at positions that sum to %d·len%+d, not len − 1", I.a+E.a, I.k+E.k))
-			}
-			if I.step+E.step != 0 {
-				probs = append(probs, fmt.Sprintf("the cursors move by %+d and %+d per round: they do not stay mirror images of each other", I.step, E.step))
-			}
-		} else if bo, ok := src.Index.(*ssa.BinOp); ok {
-			// len − 1 − I, or a cursor already advanced (e − 1 read after e--)
-			if ph, isPhi := bo.X.(*ssa.Phi); isPhi && ivOf(ph).ok {
-				probs = append(probs, "the source cursor is used after it was advanced: the element read is one further on than the position that mirrors the destination")
-			} else if a, k, ok := lenForm(bo.X, 0); !(ok && bo.Op == token.SUB && bo.Y == dst.Index && a == 1 && k == -1) {
-				probs = append(probs, "the source position is not len(list) − 1 − (destination index)")
-			}
-		} else {
-			c.undecided("R-REVERSE-COPY", key, st.Pos(), "the source position is neither a mirrored cursor nor len − 1 − I")
-			return
-		}
-		c.judge(len(probs) == 0, "R-REVERSE-COPY", key, st.Pos(), "I from 0 up by one below len; I + E = len − 1", strings.Join(probs, "; ")+": Slice does not return the elements newest first, each once")
+		c.judge(len(probs) == 0, "R-REVERSE-COPY", key, st.Pos(), "A + B = len − 1 in every round; rounds 0 … len − 1", strings.Join(probs, "; ")+": Slice does not return the elements newest first, each once")
 	})
 }
 
